@@ -95,6 +95,8 @@ def showCrash : Crash → String
   | .unpackValueError => "ValueError"
   | .typeError => "TypeError"
   | .assertion => "AssertionError"
+  | .indexError => "IndexError"
+  | .other name => name
 
 def showErr : Err → String
   | .syntax e => s!"err syntax {showSyn e}"
